@@ -123,7 +123,7 @@ def gen_plan(seed, tier, index=0, avoid=()):
         if k < 0.3 or (i == 0 and k < 0.8):
             # at least one row: cursor_pos must designate an array cell (with top_usable_row pushed to
             # the screen height by earlier movements an empty array has no on-screen cell for the cursor)
-            n = rng.randint(1, h + 1)
+            n = rng.randint(1, h + 1) if rng.random() < 0.8 else rng.randint(h, h + 4)
             rows = [gen.gen_row(rng, rng.randint(0, w), 0.7) for _ in range(n)]
             cr = rng.randrange(n)
             steps.append({"op": "render", "rows": rows, "cursor": [cr, rng.randrange(w)]})
@@ -532,12 +532,14 @@ def _exec_b(p, s, res):
     if not _enter(win, res):
         return
     base = None           # row where the last render / previous completed query left/saw the cursor
+    moved_since_entry = False
     nested_returns = []
-    pending_nested = []   # list of dicts for the current diff step
+    nonlocal_moved = [False]
 
     def winch(signum, frame):
         spec = winch.spec
         if spec and spec.get("move"):
+            nonlocal_moved[0] = True
             _move(term, spec["move"])
             world.log.add("move_in_handler", spec["move"], term.r)
             world.probe("nested_with_move")
@@ -562,6 +564,7 @@ def _exec_b(p, s, res):
                 base = term.r
                 world.log.add("rendered", si, term.r, win.top_usable_row)
             elif st["op"] == "move":
+                moved_since_entry = True
                 _move(term, st["d"])
                 world.log.add("move", st["d"], term.r)
             else:
@@ -626,6 +629,12 @@ def _exec_b(p, s, res):
                     _violate(res, "unread_input_left", si, {"unread": repr(bytes(s.tty.inq))})
                 if not isinstance(ret, int):
                     _violate(res, "diff_not_int", si, {"returned": repr(ret)})
+                elif base is None:
+                    # no render and no earlier query: there is no base row to measure a movement from --
+                    # except when the cursor still is where it was on entry: nothing moved, nothing to account
+                    if not moved_since_entry and not nonlocal_moved[0] and (top1 - top0) + ret != 0:
+                        _violate(res, "movement_invented_before_first_render", si,
+                                 {"top_usable_row_before": top0, "after": top1, "returned": ret, "reported_row": reported})
                 elif base is not None:
                     moved = reported - base
                     if (top1 - top0) + ret != moved:
